@@ -246,6 +246,7 @@ class FileCheck:
         else:
           self.sub_rows[s.index] = nonempty
     self.rows_cfg = self._row_count()
+    self.cum_after_dropped = set()      # members of a cumulative set one of whose earlier members is dropped (before programme start)
 
   # --- configuration --------------------------------------------------------------------------------------------
   def _row_count(self):
@@ -370,6 +371,10 @@ class FileCheck:
       mech += ":cs-irregular"
     if sub is not None and sub.inner_filler:
       mech += ":inner-filler"
+    if sub is not None and sub.index in self.cum_after_dropped:
+      mech += ":cum-after-dropped"
+    if sub is not None and mech.startswith(("text:", "paragraph-mismatch")) and any(fl["diacritic_space"] for _, fl in sub.readings):
+      mech += ":diacritic-before-space"
     self.viol.append((mech, what))
 
 
@@ -421,6 +426,14 @@ def check_with_interp(fc: FileCheck, doc, interp, sig_set):
       continue
     b, e = tm[1], tm[2]
     st["shown"] = (not s.comment) and e > b
+  fc.cum_after_dropped = set()
+  dropped_sets = set()
+  for s, tm in zip(subs, timing):
+    if s.cum_set is not None:
+      if s.cum_set in dropped_sets:
+        fc.cum_after_dropped.add(s.index)
+      if tm[0] == "dropped":
+        dropped_sets.add(s.cum_set)
   # probe times
   off = rf.start_offset(fc.cfg.get("program_start_tc"), interp)
   for s, tm in zip(subs, timing):
@@ -642,6 +655,9 @@ def space_violation(fc, key, v: Variant, obs: ObsP):
         kinds.add("space-invented")
     if kinds:
       break
+  has_wild = any(it[0] == "c" and it[1] is None for items in v.rows for it in items)
+  if has_wild and "single-space-dropped" in kinds:
+    kinds.discard("single-space-dropped")     # the split around abstained cells is not certain
   if not kinds:
     kinds.add("space-mismatch")
   mech = sorted(kinds)[0]
@@ -693,6 +709,12 @@ def classify_extra(fc: FileCheck, o: ObsP, t, info, interp, off):
   cands = [s for s in rf.subs if fc.sub_rows[s.index] and fc.text_match((s.index,), o, "relaxed") is not None]
   weak = False
   if not cands:
+    # same characters but for a few (e.g. a diacritic applied to the wrong letter once spaces are lost)
+    seen = o.visible_text()
+    cands = [s for s in rf.subs if fc.sub_rows[s.index] and window(s) is not None
+             and window(s)[0] <= t < max(window(s)[1], window(s)[0] + EPS)
+             and difflib.SequenceMatcher(None, _expected_text(fc, (s.index,)), seen, autojunk=False).ratio() >= 0.6]
+  if not cands:
     # text after an unused-space code: subtitles whose text field is empty up to the first 8Fh and whose window contains t
     cands = [s for s in rf.subs if (fc.sub_rows[s.index] is None or (s.inner_filler and not fc.sub_rows[s.index]))
              and window(s) is not None and window(s)[0] <= t < max(window(s)[1], window(s)[0] + EPS)]
@@ -734,7 +756,7 @@ def order_check(fc: FileCheck, doc, interp):
   timing = fc.rf.timing(fc.cfg.get("program_start_tc"), interp)
   seen = []
   for s, tm in zip(fc.rf.subs, timing):
-    if tm[0] != "ok" or tm[2] <= tm[1] or s.comment or s.cum_set is not None or not fc.sub_rows[s.index] or not fc.fits(s):
+    if tm[0] != "ok" or tm[2] <= tm[1] or s.comment or s.cum_set is not None or not fc.sub_rows[s.index] or not fc.fits(s) or s.inner_filler:
       continue
     rows = fc.sub_rows[s.index][0]
     if len(rows) != fc.max_rows(s):
